@@ -102,6 +102,7 @@ pub fn account(ev: &mut Eval, sc: &Scenario, res: &RunResult) -> String {
             let n = match fx {
                 DestFx::Short(_) => "dest_short_write",
                 DestFx::Interrupted => "dest_interrupted",
+                DestFx::Zero => "dest_write_zero",
                 DestFx::Error(_) => "dest_error",
                 DestFx::Panic => "dest_panic",
                 DestFx::Crash => "dest_crash",
@@ -343,7 +344,9 @@ pub fn evaluate(prop: &str, sc: &Scenario) -> Eval {
                 let mut f = sc.clone();
                 if let Workload::Dump(p) = &mut f.workload {
                     p.dests[0].fx.retain(|(o, _)| *o != k);
-                    p.dests[0].fx.push((k, DestFx::Error(crate::kernel::ENOSPC)));
+                    // alternate between a hard error and a destination that reports "full" (Ok(0))
+                    let is_write = res.dumps.first().and_then(|d| d.dest.ops.get(k as usize)).map(|o| o.kind == crate::dest::OpKind::Write).unwrap_or(false);
+                    p.dests[0].fx.push((k, if k % 2 == 0 || !is_write { DestFx::Error(crate::kernel::ENOSPC) } else { DestFx::Zero }));
                     p.dests[0].fx.sort_by_key(|(o, _)| *o);
                 }
                 let fres = run(&f, &RunOpts::default());
